@@ -323,6 +323,43 @@ def run(case):
         pass
       g2.clear()
       gc.collect()
+      # ... and at once another function is created (memory reuse is likely,
+      # not certain: a few rounds), which must be judged by ITS signature
+      bad = None
+      stats['ghosts'] = stats.get('ghosts', 0) + 1
+      for rnd in range(8):
+        g4 = {}
+        exec('def ghost_again(ghost_p=0, a=1):\n  return a\n', g4)  # pylint: disable=exec-used
+        try:
+          gin.external_configurable(g4.pop('ghost_again'),
+                                    name='ghost%d_%d_%d' % (op['n'], stats['ghosts'], rnd),
+                                    allowlist=['a', 'nope'])
+        except Exception:  # pylint: disable=broad-except
+          pass
+        g4.clear()
+        gc.collect()
+        g5 = {}
+        exec('def fresh(z=0, w=1):\n  return z\n', g5)  # pylint: disable=exec-used
+        nm = 'fresh%d_%d_%d' % (op['n'], stats['ghosts'], rnd)
+        try:
+          gin.external_configurable(g5['fresh'], name=nm, module='mm',
+                                    allowlist=['z'])
+          gin.bind_parameter('mm.%s.z' % nm, 5)
+        except Exception as e:  # pylint: disable=broad-except
+          bad = (rnd, e)
+          break
+        try:
+          gin.bind_parameter('mm.%s.ghost_p' % nm, 5)
+          bad = (rnd, 'ghost_p accepted')
+          break
+        except Exception:  # pylint: disable=broad-except
+          pass
+      if bad is not None:
+        v('C11.valid_accepted', ['fresh-function-after-dropped-one'],
+          'a function fresh(z=0, w=1) created right after a rejected and '
+          'dropped registration (round %d): allowlist [\'z\'] / binding z / '
+          'rejecting ghost_p went wrong: %s' %
+          (bad[0], probes.scrub(str(bad[1]))[:200]))
       log.add('ghost', op['n'])
     elif k == 'reregister':
       spec = op['spec']
